@@ -230,6 +230,38 @@ def rule_url(c: Ctx) -> RuleResult:
           "every return value is the result of mdurl.encode (percent-encoding to URL-safe ASCII) with its default character sets" if ok else
           "a return value of normalizeLink is not (default) mdurl.encode output")
     r.add(*_validate_semantics(c))
+    # a rejected destination stays literal text: the cursor moves past a parsed destination only where it validated.  In every
+    # function that parses a destination, each store of `<result>.pos` lies behind the passing edge of a validateLink test.
+    from .switch_rules import _edge_dominated
+    ndest = 0
+    for f in sorted(phase, key=lambda f: f.qual):
+        res_names = {n.targets[0].id for n in own_nodes(f.node) if isinstance(n, ast.Assign) and len(n.targets) == 1 and isinstance(n.targets[0], ast.Name)
+                     and isinstance(n.value, ast.Call) and U(n.value.func).split(".")[-1] == "parseLinkDestination"}
+        if not res_names:
+            continue
+        cfg = c.cfg(f)
+        tests = []
+        for tn in cfg.nodes:
+            if tn.kind == "test" and tn.ast is not None and isinstance(tn.ast, ast.Call) and U(tn.ast.func).split(".")[-1] == "validateLink":
+                tests.append(tn)
+        for n in cfg.nodes:
+            if n.kind != "stmt" or not isinstance(n.ast, (ast.Assign, ast.AugAssign)):
+                continue
+            v = n.ast.value
+            if not (isinstance(v, ast.Attribute) and v.attr == "pos" and isinstance(v.value, ast.Name) and v.value.id in res_names):
+                continue
+            from ..reach import Reaching
+            rds = Reaching(cfg).at(n, v.value.id)
+            if not any(d.kind == "assign" and isinstance(d.value, ast.Call) and U(d.value.func).split(".")[-1] == "parseLinkDestination" for d in rds):
+                continue          # the name holds another helper's result here (the title)
+            ndest += 1
+            ok = any(_edge_dominated(cfg, tn, "T", n) for tn in tests)
+            r.add(f"{f.short}|dest-cursor|{alpha(f, n.ast)[:50]}", c.where(f, n.ast), f.short, U(n.ast)[:60], "discharged" if ok else "violation",
+                  "the cursor passes the destination only behind a successful validateLink test" if ok else
+                  "the cursor is moved past a parsed destination on a path where validateLink did not succeed: a rejected destination "
+                  "would be consumed (dropped from the output) instead of staying literal text")
+    if ndest < 3:
+        raise AnchorError(f"only {ndest} stores of a parsed destination's end position found (link, image, reference)")
     r.floor = 12
     if nsinks < 6:
         raise AnchorError(f"only {nsinks} URL sinks found; 9 were confirmed by reading")
